@@ -1,5 +1,4 @@
 #include "sim.h"
-int engine_inproc_asm(RBuf &rq) { return 99; }
 int engine_util_api(RBuf &rq) { return 99; }
 int engine_c14(RBuf &rq) { return 99; }
 int engine_c15(RBuf &rq) { return 99; }
